@@ -49,6 +49,12 @@
 (* order (what D produces, so that Dec(Enc(v)) = v is plain equality); the *)
 (* binding presents the corresponding Python mapping to the real writer in *)
 (* permuted insertion orders and expects the same bytes for every order.   *)
+(* TEXT is its UTF-8 byte string and every width is a width in BYTES: the   *)
+(* domain of strfixed(n) is Len(bytes) <= n (not the character count), of  *)
+(* str(p, nt) it is Len(bytes) + (1 if nt) <= max of the prefix, and every  *)
+(* accepted strfixed value encodes to exactly n bytes.  A string with fewer *)
+(* than n characters but more than n bytes is REFUSED ("rej"), never        *)
+(* written over-long or cut.                                                *)
 (* For an un-shifted bitfield member at bit position pos with mask m the   *)
 (* domain is v = v & (m << pos): bits above the mask AND bits below the    *)
 (* position are refused ("rej"), never shifted or masked away.             *)
